@@ -233,9 +233,88 @@ def ccase(f, inp, code, out):
     return '(%d,%d,"%s",%d,"%s")' % (k, p, inp.hex(), code, out.hex())
 
 
+
+# --------------------------------------------------------------------------- replay of one stored failing input
+def replay_one(ctx, path):
+    import json
+    H = ctx.harness
+    rp = json.load(open(path))
+    d = rp.get("detail", rp)
+    fi = d.get("failing_input")
+    viol = []
+    print("replay:", rp.get("what", d.get("what")))
+    if fi is None:
+        print("  no concrete failing input stored (model/implementation correspondence case):", str(d.get("case"))[:400])
+        return dict(violations=[dict(what="replay file carries no failing input: " + str(rp.get("what")), nofail=True, case=d.get("case"))],
+                    known=[], coverage=dict(evaluations=0, distinct_nontrivial=0, rule="replay", samples=[]))
+    if "positions" in fi:                                   # altered stored chunk
+        x = bytes.fromhex(fi["payload_hex"]); fs = fi["filters"]
+        stored = bytes.fromhex(fi["stored"])
+        multi = [[[p, stored[p] ^ v] for p, v in zip(fi["positions"], fi["values"])]]
+        r = vlib.run_harness(H, "c08corrupt", [{"data": x.hex(), "filters": fs, "xors": [], "sets": [], "positions": [], "multi": multi}])[0]
+        print("  implementation:", {k: r.get(k) for k in ("total", "writer_detected", "reader_detected", "misses")})
+        mod = bytearray(stored)
+        for p, v in zip(fi["positions"], fi["values"]):
+            mod[p] = v
+        exp = py_decode_pipeline(fs, bytes(mod))
+        print("  specification (oracle decode of the altered chunk):", exp if isinstance(exp, str) else ("decodes to %d bytes, equal to payload: %s" % (len(exp), exp == x)))
+        for m in r.get("misses", []):
+            if (not m["writer_err"] and not m["writer_eq"]) or (not m["reader_err"] and not m["reader_eq"]) or (fs[-1]["t"] == "fletcher32" and isinstance(exp, str)):
+                viol.append(dict(what=rp.get("what"), failing_input=fi, impl=m))
+    elif "payload_hex" in fi:                               # payload x pipeline
+        x = bytes.fromhex(fi["payload_hex"]); fs = fi["filters"]
+        r = vlib.run_harness(H, "c08", [{"data": x.hex(), "filters": fs, "stages": len(x) <= 65536}])[0]
+        show = {k: (v if not isinstance(v, str) or len(v) < 200 else v[:200] + "...") for k, v in r.items() if k not in ("stages",)}
+        print("  implementation:", show)
+        bad = []
+        if r.get("apply_ok"):
+            enc = bytes.fromhex(r["enc"])
+            dec = py_decode_pipeline(fs, enc)
+            print("  specification (oracle decode of the stored chunk):", dec if isinstance(dec, str) else "equal to payload: %s" % (dec == x))
+            if dec != x:
+                bad.append("stored chunk not in the specified format")
+            if not r.get("remove_eq"):
+                bad.append("writer Remove does not restore the payload")
+            if fs and not r.get("reader_eq"):
+                bad.append("reader does not decode the writer's chunk")
+        if fs and (r.get("msg") != py_message(fs).hex() or not r.get("parse_ok")):
+            bad.append("pipeline message")
+        for b in bad:
+            viol.append(dict(what=b, failing_input=fi, impl=show))
+    elif "stored" in fi:                                    # malformed chunk through the reader
+        f = fi["filter"]; stored = bytes.fromhex(fi["stored"])
+        r = vlib.run_harness(H, "c08read", [{"msg": py_message([f]).hex(), "data": stored.hex()}])[0]
+        exp = py_decode_pipeline([f], stored)
+        print("  implementation:", r)
+        print("  specification:", exp if isinstance(exp, str) else exp.hex())
+        if r.get("reader_ok") and (isinstance(exp, str) or bytes.fromhex(r["reader"]) != exp):
+            viol.append(dict(what=rp.get("what"), failing_input=fi, impl=r))
+    elif "message" in fi:
+        r = vlib.run_harness(H, "c08read", [{"msg": fi["message"], "data": ""}])[0]
+        print("  implementation:", r)
+        if "panic" in r:
+            viol.append(dict(what=rp.get("what"), failing_input=fi, impl=r))
+    elif "dtype" in fi:                                     # end to end
+        c = dict(fi, dir=os.path.join(vlib.BUILD, "c08-e2e"))
+        c.pop("flipped_offset", None); c.pop("chunk_offset", None)
+        os.makedirs(c["dir"], exist_ok=True)
+        r = vlib.run_harness(H, "c08e2e", [c])[0]
+        print("  implementation:", {k: (v if k != "values" else v[:16]) for k, v in r.items()})
+        print("  specification: values read back equal the values written:", r.get("values") == fi.get("values"))
+        if r.get("values") != fi.get("values"):
+            viol.append(dict(what=rp.get("what"), failing_input=fi, impl={k: v for k, v in r.items() if k != "values"}))
+    else:
+        print("  unrecognised failing input:", str(fi)[:300])
+        viol.append(dict(what="unrecognised replay payload", nofail=True, case=fi))
+    print("  verdict:", "still violated" if viol else "holds on this input")
+    return dict(violations=viol, known=[], coverage=dict(evaluations=1, distinct_nontrivial=1, rule="replay of one stored case", samples=[fi if len(str(fi)) < 2000 else str(fi)[:2000]]))
+
+
 # --------------------------------------------------------------------------- the check
 def run(ctx):
     H, rng = ctx.harness, ctx.rng
+    if getattr(ctx, "replay", None):
+        return replay_one(ctx, ctx.replay)
     quick = ctx.tier == "quick"
     viol, known, samples = [], [], []
     t_start = time.time()
@@ -252,7 +331,7 @@ def run(ctx):
     meta = []        # (payload, filters, class)
     small_sizes = [0, 1, 2, 3, 4, 5, 7, 8, 9, 15, 16, 17, 31, 32, 33, 34, 63, 64, 65, 100, 127, 128, 129, 255, 256, 257,
                    263, 264, 265, 266, 300, 511, 512, 513, 1000, 1024, 2048, 4096]
-    reps = 1 if quick else 12
+    reps = 1 if quick else 30
     for _ in range(reps):
         for kinds in orders:
             # one small payload per ordering that satisfies the shuffle precondition, one arbitrary
@@ -288,6 +367,11 @@ def run(ctx):
     for n, kind in [(8190, "random"), (8300, "random")]:
         unit = gen_payload(rng, kind, n)
         lzf_special.append(unit + unit[:600])
+    # repeat distance exactly at the window limit: implementation + oracle only (too long for the model transport)
+    for n in (8191, 8192, 8193, 8194):
+        unit = gen_payload(rng, "random", n)
+        x = unit + unit[:300]
+        cases.append({"data": x.hex(), "filters": [{"t": "lzf"}]}); meta.append((x, [{"t": "lzf"}], "lzf-window"))
     lzf_special.append(gen_payload(rng, "random", 40) + bytes(9000) + gen_payload(rng, "random", 40))
     lzf_special.append((b"abc" * 400) + gen_payload(rng, "random", 33) + (b"abc" * 100))
     for x in lzf_special[: (3 if quick else 4)]:
@@ -328,7 +412,7 @@ def run(ctx):
         size_hist["2^%d" % b] = size_hist.get("2^%d" % b, 0) + 1
         key = "+".join(f["t"] for f in fs) or "(none)"
         pipe_hist[key] = pipe_hist.get(key, 0) + 1
-        rep = dict(payload_len=len(x), payload_hex=x.hex() if len(x) <= 4096 else x[:64].hex() + "...", filters=fs)
+        rep = dict(payload_len=len(x), payload_hex=x.hex(), filters=fs)
         if "panic" in r or any(k.endswith("_panic") for k in r):
             violation("a filter call panicked", failing_input=rep, impl={k: v for k, v in r.items() if "panic" in k})
             continue
@@ -551,7 +635,7 @@ def run(ctx):
 
     # ------------------------------------------------------------------ C: corruption
     cor_cases, cor_meta = [], []
-    ncor = 36 if quick else 700
+    ncor = 54 if quick else 5000
     for i in range(ncor):
         n = rng.choice([0, 1, 2, 3, 4, 5, 8, 16, 31, 33, 64, 100, 200, 256, 400, 507, 508])
         esz = rng.choice([1, 2, 4])
@@ -579,10 +663,14 @@ def run(ctx):
     outer_total = inner_total = multi_collisions = 0
     coq_cor = []
     inner_lzf_misses = []
+    cor_refused = 0
     for (x, fs), r in zip(cor_meta, cor_res):
         rep = dict(payload_hex=x.hex(), filters=fs)
         if "panic" in r:
             violation("corruption run panicked", failing_input=rep, impl=r["panic"]); continue
+        if r.get("apply_err") and any(f["t"] == "shuffle" for f in fs[1:]) and "not multiple" in r["apply_err"]:
+            cor_refused += 1          # a shuffle stage met a compressed length that is not a multiple: legitimately refused
+            continue
         if r.get("apply_err") or r.get("msg_err") or r.get("parse_err"):
             violation("Fletcher-protected pipeline could not be set up: %s" % r, failing_input=rep); continue
         if not r.get("clean_ok"):
@@ -685,8 +773,7 @@ def run(ctx):
     evaluations += len(e2e_cases)
     e2e_ok = e2e_skipped = 0
     for c, vals, r, cr in zip(e2e_cases, e2e_meta, e2e_res, ctrl_res):
-        rep = {k: c[k] for k in ("dtype", "dims", "chunk", "opts", "sb")}
-        rep["values_head"] = vals[:8]
+        rep = {k: c[k] for k in ("dtype", "dims", "chunk", "opts", "sb", "values")}
         if cr.get("values") != vals:
             e2e_skipped += 1      # the unfiltered dataset already fails: not a filter matter
             continue
@@ -769,6 +856,10 @@ def run(ctx):
         coq_stage = budget(coq_stage, 40000, keep_big=2)
         coq_rstep = budget(coq_rstep, 16000)
         coq_cor = budget(coq_cor, 10000)
+    else:
+        coq_stage = budget(coq_stage, 500000, keep_big=8)
+        coq_rstep = budget(coq_rstep, 150000)
+        coq_cor = budget(coq_cor, 100000)
     groups = [("st", "stage3_ok", coq_stage), ("rs", "rstep_ok", coq_rstep), ("co", "decode2_ok", coq_cor)]
     vparts = ["From HV Require Import Base.Prelude Model.Filters Model.FiltersTie.\nOpen Scope string_scope.\n"]
     labels = []
@@ -824,7 +915,8 @@ def run(ctx):
         pipelines=dict(orderings=len(orders), accepted=accepted, refused_by_shuffle_precondition=rejected, histogram_top=sorted(pipe_hist.items(), key=lambda kv: -kv[1])[:12]),
         payload_classes=class_hist, payload_sizes=size_hist,
         corruption=dict(altered_chunks=corruptions, fletcher_outermost=outer_total, fletcher_inner=inner_total,
-                        multi_byte_true_collisions_skipped=multi_collisions, file_level_flips=flips),
+                        multi_byte_true_collisions_skipped=multi_collisions, file_level_flips=flips,
+                        pipelines_refused_by_shuffle=cor_refused),
         malformed=dict(chunks=len(mal_cases), rejected=mal_err, messages=len(pm_cases), messages_rejected=sum(1 for r in pm_res if not r.get("parse_ok"))),
         end_to_end=dict(cases=len(e2e_cases), read_back_equal=e2e_ok, skipped_control_fails=e2e_skipped, reference_library_files=ref_checked),
         model_evaluations_in_coq=ncoq, coq_seconds=round(t_coq, 1), programs=len(cases) + len(e2e_cases), disagreements_checked=ncoq,
